@@ -25,6 +25,7 @@ type goGen struct {
 	specs   map[string]bool
 	out     []string // helper function definitions
 	imports map[string]string
+	needValEq bool
 	fail    string
 	qn      int
 	nChecked int
@@ -174,8 +175,9 @@ func (g *goGen) expr(e Expr, sc *goScope) goVal {
 			case l.cls == "S":
 				eq = "gocvSeqEq(" + l.code + ", " + r.code + ")"
 			case l.cls == "V":
-				eq = "reflect.DeepEqual(" + l.code + ", " + r.code + ")"
+				eq = "gocvValEq(" + l.code + ", " + r.code + ")"
 				g.imports["reflect"] = "reflect"
+				g.needValEq = true
 			default:
 				eq = "(" + l.code + " == " + r.code + ")"
 			}
@@ -432,7 +434,8 @@ func (g *goGen) call(e ECall, sc *goScope) goVal {
 				return goVal{code: "gocvSeqEq(" + as[0].code + ", " + as[1].code + ")", cls: "B"}
 			}
 			g.imports["reflect"] = "reflect"
-			return goVal{code: "reflect.DeepEqual(" + as[0].code + ", " + as[1].code + ")", cls: "B"}
+			g.needValEq = true
+			return goVal{code: "gocvValEq(" + as[0].code + ", " + as[1].code + ")", cls: "B"}
 		case "isnil":
 			return goVal{code: "(" + args()[0].code + " == nil)", cls: "B"}
 		case "weight":
@@ -678,6 +681,12 @@ func (g *goGen) defineSpec(sf *SpecFunc) {
 	}
 	g.out = append(g.out, fmt.Sprintf("func spec_%s(%s) %s { return %s }", sf.Name, strings.Join(ps, ", "), rty, code))
 }
+
+// pointers are owned boxes in the model: equality is equality of the values behind them
+const goValEqHelper = `
+func gocvDeref(a interface{}) interface{} { v := reflect.ValueOf(a); for v.IsValid() && v.Kind() == reflect.Ptr && !v.IsNil() { v = v.Elem() }; if !v.IsValid() { return nil }; return v.Interface() }
+func gocvValEq(a, b interface{}) bool { return reflect.DeepEqual(gocvDeref(a), gocvDeref(b)) }
+`
 
 const goHelpers = `
 func gocvDiv(a, b int) int { if b == 0 { return 0 }; q := a / b; if (a%b != 0) && ((a < 0) != (b < 0)) { q-- }; return q }
